@@ -73,3 +73,14 @@ class SumSubtotalsBlocks(Contract):
 
 
 REGISTRY.append(SumSubtotalsBlocks())
+
+
+# C10 (exchange of the two dimensions) rests on every class-level contract of this module: the
+# row-direction result of a response equals the transposed column-direction result of the
+# exchanged response because each class meets its own spec function and the spec functions
+# are mirror images (contracts/mirror_c.py).  A change that breaks one of a pair of twins
+# fails that class's contract, so each of them is also run by the C10 check.
+for _c in REGISTRY:
+    if (_c.__class__.__module__ == __name__ and "C10" not in _c.props and "lemma." not in _c.name
+            and not any(w in _c.name for w in ())):
+        _c.props = tuple(_c.props) + ("C10",)
